@@ -30,10 +30,10 @@ try:
     if rc != 0:
         print("patch does not apply:", o); raise SystemExit(1)
     # demonstration: where and how
-    dp = open(os.path.join(out, "demo_path.txt")).read()
-    m = re.search(r"([\w./-]+_test\.go|[\w./-]+/main\.go)", dp.replace("demo_test.go", "DEMO"))
-    target = m.group(1) if m else None
-    cmdm = re.search(r"^\s*((?:cd [^\n&]+&&\s*)?go (?:test|run)[^\n]*)$", dp, re.M)
+    dp = open(os.path.join(out, "demo_path.txt")).read().replace("<repo>/", "").replace("<worktree>/", "").replace("`", " ")
+    cands = [m for m in re.findall(r"((?:[\w.-]+/)+[\w.-]+_test\.go|(?:[\w.-]+/)+main\.go)", dp) if not m.endswith("/demo_test.go") and m != "demo/main.go"]
+    target = cands[0] if cands else None
+    cmdm = re.search(r"((?:cd\s+[^\s&;]+\s*&&\s*)?go (?:test|run)[^\n(]*)", dp)
     cmd = cmdm.group(1).strip() if cmdm else None
     demo_src = next((os.path.join(out, f) for f in ("demo_test.go", "demo/main.go", "main.go") if os.path.exists(os.path.join(out, f))), None)
     meta["demo_target"], meta["demo_cmd"] = target, cmd
